@@ -1755,6 +1755,17 @@ pub fn selftests() -> Vec<(&'static str, bool, String)> {
         None,
     );
     case(
+        "format with width parameters, multiple values (receive, let-values, call-with-values), string procedures: evaluated; never torn",
+        &w3,
+        wrap_program(
+            "(p (current-output-port)) (m (make-mutex)) (pr (lambda (l) (receive (a b) (values (string-length l) (string-upcase l)) (let-values (((c d) (values (format #f \"~5d|~8a|~3,'0d|~x\" a l a 255) (string-trim-both (string-append \" \" b \" \"))))) (call-with-values (lambda () (values c d)) (lambda (x y) (with-mutex m (display (string-append x \":\" y (string #\\x0a)) p))))))))",
+            "(call-with-relative-path pr)",
+        ),
+        None,
+        1500,
+        None,
+    );
+    case(
         "quote, pairs and association lists: evaluated; records queued per call and written under the lock",
         &w3,
         wrap_program(
